@@ -96,7 +96,8 @@ def strace_check(c, d, W, app_exe, drv, V, open_exe=None, st=None, dims=None):
     napp = 0
     for nsteps in (1, 3, 40, 2):
         before = open(fn, "rb").read()
-        p = subprocess.run(tr + [app_exe, fn, str(nsteps)], capture_output=True, text=True)
+        extra = ["add"] if napp == 2 else []        # third append: a particle is added, the delta has another size
+        p = subprocess.run(tr + [app_exe, fn, str(nsteps)] + extra, capture_output=True, text=True)
         after = open(fn, "rb").read()
         flags, writes, trunc = strace_writes(log, fn)
         cg = contiguous(writes)
@@ -108,13 +109,13 @@ def strace_check(c, d, W, app_exe, drv, V, open_exe=None, st=None, dims=None):
             c.corr_break("append is not one ascending contiguous run of writes starting at the old trailer",
                          dict(writes=writes[:8], want=want, trunc=trunc, flags=flags))
         if open_exe is not None and napp in (1, 3):
-            observed_order_restart(c, W, app_exe, open_exe, before, after, writes, nsteps, napp == 1, st, dims)
+            observed_order_restart(c, W, app_exe, open_exe, before, after, writes, nsteps, napp == 1, st, dims, extra)
     res["appends_checked"] = napp
     res["append_flags"] = flags
     return res
 
 
-def observed_order_restart(c, W, app_exe, open_exe, before, after, writes, nsteps, first, st, dims):
+def observed_order_restart(c, W, app_exe, open_exe, before, after, writes, nsteps, first, st, dims, extra=()):
     """crash images built from the write sequence the real code was OBSERVED to perform (strace: offsets and sizes in
     time order; contents from the file after the append), not from the sequence the model assumes; each image is
     restarted with the real code (load last snapshot, redo the steps, append; then one more append) and must expose
@@ -122,12 +123,12 @@ def observed_order_restart(c, W, app_exe, open_exe, before, after, writes, nstep
     nb = len(ac.parse_archive(before))
     ref = os.path.join(W, "oo_ref.bin")
     open(ref, "wb").write(before)
-    subprocess.run([app_exe, ref, str(nsteps)], capture_output=True)
+    subprocess.run([app_exe, ref, str(nsteps)] + list(extra), capture_output=True)
     subprocess.run([app_exe, ref, "5"], capture_output=True)
     cuts = []
     for j, (off, n) in enumerate(writes):
         content = after[off:off + n]
-        ks = {1, 4, 8, 12, 13, 16, 20, 24, 28, n // 2, max(1, n - 12), max(1, n - 4), n - 1}
+        ks = {1, 4, 8, 12, 13, 16, 20, 24, 28, n // 2, max(1, n - 12), n - 1} | set(range(max(1, n - 8), n))
         if j > 0:
             ks.add(0)
         zeros = [k for k in range(4, n) if content[k - 4:k] == bytes(4)]
@@ -147,7 +148,7 @@ def observed_order_restart(c, W, app_exe, open_exe, before, after, writes, nstep
             img[off:off + m] = after[off:off + m]
         p = os.path.join(W, "oo_%d_%d.bin" % (j, k))
         open(p, "wb").write(bytes(img))
-        r1 = subprocess.run([app_exe, p, str(nsteps)], capture_output=True)
+        r1 = subprocess.run([app_exe, p, str(nsteps)] + list(extra), capture_output=True)
         r2 = subprocess.run([app_exe, p, "5"], capture_output=True)
         imgs.append((j, k, p, r1.returncode, r2.returncode))
     res = run_batch(open_exe, [(p, ref) for _, _, p, _, _ in imgs] + [(ref, ref)])
